@@ -8,3 +8,4 @@ import (
 func yaml3Marshal(v any) ([]byte, error) { return yaml3.Marshal(v) }
 
 func yamlToJSON(data []byte) ([]byte, error) { return yaml.YAMLToJSON(data) }
+func jsonToYAML(data []byte) ([]byte, error) { return yaml.JSONToYAML(data) }
